@@ -246,6 +246,16 @@ def respond (req : Sexp) : Sexp :=
     match Formula.ofSexp f, Formula.ofSexp g, seed.asNat?, tries.asNat? with
     | some f, some g, some seed, some tries => cexEquiv (mode == "ht") f g seed tries
     | _, _, _, _ => bad
+  | .list [.atom "cex_prog", p, th, seed, tries] =>
+    match Asp.programOfSexp p, listOf Formula.ofSexp th, seed.asNat?, tries.asNat? with
+    | some p, some th, some seed, some tries => cexProgram p th (tauStar p) seed tries
+    | _, _, _, _ => bad
+  | .list [.atom "cex_strong", l, r, .atom dir, probs, seed, tries] =>
+    match Asp.programOfSexp l, Asp.programOfSexp r, Direction.ofName dir, listOf Problem.ofSexp probs,
+        seed.asNat?, tries.asNat? with
+    | some l, some r, some dir, some ps, some seed, some tries =>
+      cexStrong l r (dir == .universal || dir == .forward) (dir == .universal || dir == .backward) ps seed tries
+    | _, _, _, _, _, _ => bad
   | .list [.atom "cex_gamma", f, g, seed, tries] =>
     match Formula.ofSexp f, Formula.ofSexp g, seed.asNat?, tries.asNat? with
     | some f, some g, some seed, some tries => cexGamma f g seed tries
